@@ -208,7 +208,9 @@ def r07_3(ctx: Ctx) -> None:
             local = {unparse(a.targets[0]): unparse(a.value) for s in (blk.body if blk is not None else []) for a in ast.walk(s) if isinstance(a, ast.Assign)}
             ok = src == "border_style" and local.get("border_style") == f"page.component_borders.get('{comp}')"
             ctx.instance("R07.3", r.where(calls[0]), f"render: {callee}(border_style={local.get('border_style')})")
-        if not ok:
+        if not calls:
+            ctx.gap("R07.3", f"the call of {callee} could not be re-identified in PageRenderer.render")
+        elif not ok:
             ctx.violation("R07.3", r.short, f"{callee} border override", r.where(), f"render does not pass page.component_borders['{comp}'] to {callee} as border_style")
         f = pm.func("RTFEncodingService." + callee)
         t = unparse(f.node)
